@@ -536,4 +536,715 @@ theorem mem_rules_func (g : Grammar) (r : Func × Lin × Nat) (h : r ∈ g.rules
   obtain ⟨e, he, x, _, rfl⟩ := h
   exact ⟨e, he, rfl⟩
 
+/-! ### PMCFG files: restatement of decoder and writer -/
+
+abbrev SeqIds := AList (List (Int × Nat)) Nat
+
+def varDec (v : Str) : Option (Int × Nat) :=
+  match splitOnChar ':' v with
+  | [a, b] => (match strToNat? a, strToNat? b with | some a, some b => some ((a : Int), b) | _, _ => none)
+  | _ => none
+
+def seqDec (t : List Str) : Option (Str × List (Int × Nat)) :=
+  match t with
+  | name :: arrow :: vars => if arrow == "->".toList then some (name, vars.filterMap varDec) else none
+  | _ => none
+
+def ruleDec (t : List Str) : Option (Str × List Str) :=
+  match t with
+  | name :: colon :: lhs :: arrow :: rhs => if colon == ":".toList && arrow == "<-".toList then some (name, lhs :: rhs) else none
+  | _ => none
+
+def linDec (name : Str) (t : List Str) : Option (List Str) :=
+  match t with
+  | n :: eq :: ids => if n == name && eq == "=".toList then some ids else none
+  | _ => none
+
+def cntDec (name : Str) (t : List Str) : Option Nat :=
+  match t with
+  | [n, c] => if n == name then strToNat? c else none
+  | _ => none
+
+def decToks (toks : List (List Str)) : Option (List (Func × Lin × Nat)) :=
+  (toks.filterMap ruleDec).mapM fun (name, func) => do
+    let linIds ← toks.findSome? (linDec name)
+    let lin ← linIds.mapM fun i => (((toks.filterMap seqDec)).find? (·.1 == i)).map (·.2)
+    let count ← toks.findSome? (cntDec name)
+    pure (func, lin, count)
+
+theorem decPmcfg_eq (lines : List Str) : decPmcfg lines = decToks (lines.map splitWs) := rfl
+
+def linStep (a : SeqIds × List Str) (ld : List (Int × Nat)) : SeqIds × List Str :=
+  match AList.get? ld a.1 with
+  | some i => (a.1, a.2 ++ ["s".toList ++ natToStr i])
+  | none => let i := a.1.length + 1
+            (a.1 ++ [(ld, i)], a.2 ++ ["s".toList ++ natToStr i])
+
+def ruleLines (fid : Nat) (r : Func × Lin × Nat) (names : List Str) : List Str :=
+  let fn := "fun".toList ++ natToStr fid
+  [sp ++ fn ++ sp ++ Gen.G_RULE ++ sp ++ (r.1.head?.getD []) ++ sp ++ Gen.G_RULEARROW ++ sp ++ unwords (r.1.drop 1),
+   sp ++ fn ++ sp ++ Gen.G_LINEARIZATION ++ (names.map fun n => sp ++ n).flatten,
+   sp ++ fn ++ sp ++ natToStr r.2.2]
+
+def pmStep (acc : List Str × Nat × SeqIds) (r : Func × Lin × Nat) : List Str × Nat × SeqIds :=
+  let st := r.2.1.foldl linStep (acc.2.2, [])
+  (acc.1 ++ ruleLines acc.2.1 r st.2, acc.2.1 + 1, st.1)
+
+def seqLine (p : List (Int × Nat) × Nat) : Str :=
+  sp ++ "s".toList ++ natToStr p.2 ++ sp ++ Gen.G_SEQUENCE ++ sp ++ unwords (p.1.map fun (a, b) => intToS a ++ [':'] ++ natToStr b)
+
+theorem writePmcfg_false (g : Grammar) (lex : Lexicon) :
+    (writePmcfg false g lex).1 =
+      (g.rules.foldl pmStep ([], 1, [])).1 ++ (g.rules.foldl pmStep ([], 1, [])).2.2.map seqLine := rfl
+
+/-! writer side -/
+
+theorem get?_append_of_isSome {κ ν : Type} [DecidableEq κ] (k : κ) (a b : AList κ ν)
+    (h : (AList.get? k a).isSome) : AList.get? k (a ++ b) = AList.get? k a := by
+  induction a with
+  | nil => simp at h
+  | cons x r ih =>
+    simp only [List.cons_append, get?_cons] at h ⊢
+    by_cases hx : x.1 = k
+    · simp [hx]
+    · simp only [hx, if_false] at h ⊢
+      exact ih h
+
+theorem get?_append_of_none {κ ν : Type} [DecidableEq κ] (k : κ) (a b : AList κ ν)
+    (h : AList.get? k a = none) : AList.get? k (a ++ b) = AList.get? k b := by
+  induction a with
+  | nil => rfl
+  | cons x r ih =>
+    simp only [List.cons_append, get?_cons] at h ⊢
+    by_cases hx : x.1 = k
+    · simp [hx] at h
+    · simp only [hx, if_false] at h ⊢
+      exact ih h
+
+theorem get?_some_mem {κ ν : Type} [DecidableEq κ] (k : κ) (v : ν) (a : AList κ ν)
+    (h : AList.get? k a = some v) : (k, v) ∈ a := by
+  induction a with
+  | nil => simp at h
+  | cons x r ih =>
+    rw [get?_cons] at h
+    by_cases hx : x.1 = k
+    · simp only [hx, if_true, Option.some.injEq] at h
+      simp [← hx, ← h]
+    · simp only [hx, if_false] at h
+      simp [ih h]
+
+def sName (i : Nat) : Str := "s".toList ++ natToStr i
+def fnName (i : Nat) : Str := "fun".toList ++ natToStr i
+def nameIn (F : SeqIds) (ld : List (Int × Nat)) : Str := sName ((AList.get? ld F).getD 0)
+
+def idStep (ids : SeqIds) (ld : List (Int × Nat)) : SeqIds :=
+  if (AList.get? ld ids).isSome then ids else ids ++ [(ld, ids.length + 1)]
+
+theorem linStep_fst (a : SeqIds × List Str) (ld : List (Int × Nat)) : (linStep a ld).1 = idStep a.1 ld := by
+  unfold linStep idStep
+  cases h : AList.get? ld a.1 <;> simp
+
+theorem foldl_linStep_fst (lin : Lin) (a : SeqIds × List Str) :
+    (lin.foldl linStep a).1 = lin.foldl idStep a.1 := by
+  induction lin generalizing a with
+  | nil => rfl
+  | cons ld r ih => rw [List.foldl_cons, ih, linStep_fst, List.foldl_cons]
+
+/-- the id table only grows, by keys taken from the linearization -/
+theorem foldl_idStep_ext (lin : Lin) (ids : SeqIds) :
+    ∃ ext, lin.foldl idStep ids = ids ++ ext ∧ ∀ p ∈ ext, p.1 ∈ lin := by
+  induction lin generalizing ids with
+  | nil => exact ⟨[], by simp, by simp⟩
+  | cons ld r ih =>
+    rw [List.foldl_cons]
+    obtain ⟨ext, he, hk⟩ := ih (idStep ids ld)
+    unfold idStep at he ⊢
+    by_cases h : (AList.get? ld ids).isSome
+    · simp only [h, if_true] at he ⊢
+      exact ⟨ext, he, fun p hp => by simp [hk p hp]⟩
+    · simp only [h] at he ⊢
+      refine ⟨(ld, ids.length + 1) :: ext, by simpa using he, ?_⟩
+      intro p hp
+      simp only [List.mem_cons] at hp
+      rcases hp with rfl | hp
+      · simp
+      · simp [hk p hp]
+
+def WN (F : SeqIds) : Prop := F.map (·.2) = List.range' 1 F.length
+
+theorem WN_idStep (ids : SeqIds) (ld : List (Int × Nat)) (h : WN ids) : WN (idStep ids ld) := by
+  unfold idStep
+  by_cases hs : (AList.get? ld ids).isSome
+  · simpa [hs] using h
+  · simp only [hs]
+    unfold WN at h ⊢
+    simp only [Bool.false_eq_true, if_false, List.map_append, h, List.map_cons, List.map_nil,
+      List.length_append, List.length_cons, List.length_nil, List.range'_1_concat]
+    simp [Nat.add_comm]
+
+theorem WN_foldl_idStep (lin : Lin) (ids : SeqIds) (h : WN ids) : WN (lin.foldl idStep ids) := by
+  induction lin generalizing ids with
+  | nil => exact h
+  | cons ld r ih => exact ih _ (WN_idStep ids ld h)
+
+theorem foldl_idStep_isSome (lin : Lin) (ids : SeqIds) :
+    ∀ ld ∈ lin, (AList.get? ld (lin.foldl idStep ids)).isSome := by
+  induction lin generalizing ids with
+  | nil => simp
+  | cons a r ih =>
+    intro ld hld
+    rw [List.foldl_cons]
+    simp only [List.mem_cons] at hld
+    by_cases hr : ld ∈ r
+    · exact ih _ ld hr
+    · have hld : ld = a := by rcases hld with h | h; exact h; exact absurd h hr
+      subst hld
+      obtain ⟨ext, he, _⟩ := foldl_idStep_ext r (idStep ids ld)
+      have : (AList.get? ld (idStep ids ld)).isSome := by
+        unfold idStep
+        by_cases hs : (AList.get? ld ids).isSome
+        · simp [hs]
+        · simp only [hs, Bool.false_eq_true, if_false]
+          rw [get?_append_of_none _ _ _ (by simpa using hs)]
+          simp [get?_cons]
+      rw [he, get?_append_of_isSome _ _ _ this]
+      exact this
+
+theorem nameIn_ext (F ext : SeqIds) (ld : List (Int × Nat)) (h : (AList.get? ld F).isSome) :
+    nameIn (F ++ ext) ld = nameIn F ld := by
+  unfold nameIn
+  rw [get?_append_of_isSome _ _ _ h]
+
+/-- the names recorded for a linearization are the names in the table after it -/
+theorem foldl_linStep_snd (lin : Lin) (ids : SeqIds) (names : List Str) :
+    (lin.foldl linStep (ids, names)).2 = names ++ lin.map (nameIn (lin.foldl idStep ids)) := by
+  induction lin generalizing ids names with
+  | nil => simp
+  | cons ld r ih =>
+    rw [List.foldl_cons, List.foldl_cons]
+    have hfst := linStep_fst (ids, names) ld
+    have : linStep (ids, names) ld = (idStep ids ld, names ++ [nameIn (idStep ids ld) ld]) := by
+      unfold linStep idStep nameIn sName
+      cases h : AList.get? ld ids with
+      | none =>
+        simp only [Option.isSome_none, Bool.false_eq_true, if_false]
+        rw [get?_append_of_none _ _ _ h]
+        simp [get?_cons]
+      | some i => simp [h]
+    rw [this, ih]
+    obtain ⟨ext, he, _⟩ := foldl_idStep_ext r (idStep ids ld)
+    have hs : (AList.get? ld (idStep ids ld)).isSome := by
+      have := foldl_idStep_isSome [ld] ids ld (by simp)
+      simpa using this
+    rw [List.map_cons, he, nameIn_ext _ _ _ hs]
+    simp
+
+abbrev Rule := Func × Lin × Nat
+
+def idsOf (ids : SeqIds) : List Rule → SeqIds
+  | [] => ids
+  | r :: rs => idsOf (r.2.1.foldl idStep ids) rs
+
+def linesOf (fid : Nat) (ids : SeqIds) : List Rule → List Str
+  | [] => []
+  | r :: rs => ruleLines fid r (r.2.1.map (nameIn (r.2.1.foldl idStep ids))) ++
+      linesOf (fid + 1) (r.2.1.foldl idStep ids) rs
+
+theorem foldl_pmStep (rs : List Rule) (lines : List Str) (fid : Nat) (ids : SeqIds) :
+    rs.foldl pmStep (lines, fid, ids) = (lines ++ linesOf fid ids rs, fid + rs.length, idsOf ids rs) := by
+  induction rs generalizing lines fid ids with
+  | nil => simp [linesOf, idsOf]
+  | cons r rs ih =>
+    rw [List.foldl_cons]
+    have : pmStep (lines, fid, ids) r =
+        (lines ++ ruleLines fid r (r.2.1.map (nameIn (r.2.1.foldl idStep ids))), fid + 1, r.2.1.foldl idStep ids) := by
+      unfold pmStep
+      simp only [foldl_linStep_fst, foldl_linStep_snd, List.nil_append]
+    rw [this, ih]
+    simp only [linesOf, idsOf, List.append_assoc, List.length_cons]
+    congr 2
+    omega
+
+theorem idsOf_ext (rs : List Rule) (ids : SeqIds) :
+    ∃ ext, idsOf ids rs = ids ++ ext ∧ ∀ p ∈ ext, ∃ r ∈ rs, p.1 ∈ r.2.1 := by
+  induction rs generalizing ids with
+  | nil => exact ⟨[], by simp [idsOf], by simp⟩
+  | cons r rs ih =>
+    obtain ⟨e1, h1, k1⟩ := foldl_idStep_ext r.2.1 ids
+    obtain ⟨e2, h2, k2⟩ := ih (r.2.1.foldl idStep ids)
+    refine ⟨e1 ++ e2, by rw [idsOf, h2, h1, List.append_assoc], ?_⟩
+    intro p hp
+    rcases List.mem_append.1 hp with hp | hp
+    · exact ⟨r, by simp, k1 p hp⟩
+    · obtain ⟨r', hr', hm⟩ := k2 p hp
+      exact ⟨r', by simp [hr'], hm⟩
+
+theorem WN_idsOf (rs : List Rule) (ids : SeqIds) (h : WN ids) : WN (idsOf ids rs) := by
+  induction rs generalizing ids with
+  | nil => exact h
+  | cons r rs ih => exact ih _ (WN_foldl_idStep r.2.1 ids h)
+
+theorem idsOf_isSome (rs : List Rule) (ids : SeqIds) :
+    ∀ r ∈ rs, ∀ ld ∈ r.2.1, (AList.get? ld (idsOf ids rs)).isSome := by
+  induction rs generalizing ids with
+  | nil => simp
+  | cons a rs ih =>
+    intro r hr ld hld
+    simp only [List.mem_cons] at hr
+    rcases hr with rfl | hr
+    · obtain ⟨e, he, _⟩ := idsOf_ext rs (r.2.1.foldl idStep ids)
+      have := foldl_idStep_isSome r.2.1 ids ld hld
+      simp only [idsOf]
+      rw [he, get?_append_of_isSome _ _ _ this]
+      exact this
+    · exact ih _ r hr ld hld
+
+/-! tokens of the written lines -/
+
+def OKw (s : Str) : Prop := s ≠ [] ∧ ∀ c ∈ s, pyIsSpace c = false
+
+theorem OKw_natToStr (n : Nat) : OKw (natToStr n) := ⟨natToStr_ne_nil n, natToStr_noSpace n⟩
+
+theorem OKw_append_left (a b : Str) (ha : OKw a) (hb : ∀ c ∈ b, pyIsSpace c = false) : OKw (a ++ b) := by
+  refine ⟨by simp [ha.1], ?_⟩
+  intro c hc
+  rcases List.mem_append.1 hc with h | h
+  · exact ha.2 c h
+  · exact hb c h
+
+theorem OKw_fnName (i : Nat) : OKw (fnName i) :=
+  OKw_append_left _ _ (by unfold OKw; decide) (natToStr_noSpace i)
+
+theorem OKw_sName (i : Nat) : OKw (sName i) :=
+  OKw_append_left _ _ (by unfold OKw; decide) (natToStr_noSpace i)
+
+theorem splitWs_word_sp_r (a rest : Str) (ha : OKw a) : splitWs (a ++ (sp ++ rest)) = a :: splitWs rest := by
+  rw [← List.append_assoc]; exact splitWs_word_sp a rest ha
+
+theorem splitWs_names (a : Str) (names : List Str) (ha : OKw a) (hn : ∀ n ∈ names, OKw n) :
+    splitWs (a ++ (names.map fun n => sp ++ n).flatten) = a :: names := by
+  induction names generalizing a with
+  | nil => simpa using splitWs_word a ha
+  | cons n ns ih =>
+    simp only [List.map_cons, List.flatten_cons, List.append_assoc]
+    rw [splitWs_word_sp_r a _ ha, ih n (hn n (by simp)) (fun m hm => hn m (by simp [hm]))]
+
+def ruleToks (fid : Nat) (r : Rule) (names : List Str) : List (List Str) :=
+  [fnName fid :: ":".toList :: (r.1.head?.getD []) :: "<-".toList :: r.1.drop 1,
+   fnName fid :: "=".toList :: names,
+   [fnName fid, natToStr r.2.2]]
+
+theorem ruleLines_toks (fid : Nat) (r : Rule) (names : List Str)
+    (hf : r.1 ≠ [] ∧ ∀ s ∈ r.1, OKw s) (hn : ∀ n ∈ names, OKw n) :
+    (ruleLines fid r names).map splitWs = ruleToks fid r names := by
+  obtain ⟨f, lin, c⟩ := r
+  cases f with
+  | nil => exact absurd rfl hf.1
+  | cons a rest =>
+    have ha : OKw a := hf.2 a (by simp)
+    have hr : ∀ s ∈ rest, OKw s := fun s hs => hf.2 s (by simp [hs])
+    have hfn := OKw_fnName fid
+    have e1 : splitWs (sp ++ fnName fid ++ sp ++ Gen.G_RULE ++ sp ++ a ++ sp ++ Gen.G_RULEARROW ++ sp ++ unwords rest) =
+        fnName fid :: ":".toList :: a :: "<-".toList :: rest := by
+      simp only [List.append_assoc]
+      rw [splitWs_sp, splitWs_word_sp_r _ _ hfn, splitWs_word_sp_r _ _ (by unfold OKw; decide),
+        splitWs_word_sp_r _ _ ha, splitWs_word_sp_r _ _ (by unfold OKw; decide), splitWs_unwords rest hr]
+      rfl
+    have e2 : splitWs (sp ++ fnName fid ++ sp ++ Gen.G_LINEARIZATION ++ (names.map fun n => sp ++ n).flatten) =
+        fnName fid :: "=".toList :: names := by
+      simp only [List.append_assoc]
+      rw [splitWs_sp, splitWs_word_sp_r _ _ hfn, splitWs_names _ _ (by unfold OKw; decide) hn]
+      rfl
+    have e3 : splitWs (sp ++ fnName fid ++ sp ++ natToStr c) = [fnName fid, natToStr c] := by
+      simp only [List.append_assoc]
+      rw [splitWs_sp, splitWs_word_sp_r _ _ hfn, splitWs_word _ (OKw_natToStr c)]
+    simp only [ruleLines, ruleToks, List.map_cons, List.map_nil, List.head?_cons, Option.getD_some,
+      List.drop_succ_cons, List.drop_zero]
+    rw [← fnName, e1, e2, e3]
+
+def toksF (F : SeqIds) (fid : Nat) (rs : List Rule) : List (List Str) :=
+  (rs.zipIdx fid).flatMap fun x => ruleToks x.2 x.1 (x.1.2.1.map (nameIn F))
+
+theorem linesOf_toks (rs : List Rule) (fid : Nat) (ids F : SeqIds) (hext : ∃ e, F = idsOf ids rs ++ e)
+    (hl : ∀ r ∈ rs, r.1 ≠ [] ∧ ∀ s ∈ r.1, OKw s) :
+    (linesOf fid ids rs).map splitWs = toksF F fid rs := by
+  induction rs generalizing fid ids with
+  | nil => rfl
+  | cons r rs ih =>
+    obtain ⟨e, he⟩ := hext
+    obtain ⟨e1, he1, _⟩ := idsOf_ext rs (r.2.1.foldl idStep ids)
+    have hnames : r.2.1.map (nameIn (r.2.1.foldl idStep ids)) = r.2.1.map (nameIn F) := by
+      apply List.map_congr_left
+      intro ld hld
+      rw [he, idsOf, he1, List.append_assoc, nameIn_ext _ _ _ (foldl_idStep_isSome r.2.1 ids ld hld)]
+    simp only [linesOf, toksF, List.zipIdx_cons, List.flatMap_cons, List.map_append]
+    rw [hnames, ruleLines_toks fid r _ (hl r (by simp)) (by
+      intro n hn
+      obtain ⟨ld, _, rfl⟩ := List.mem_map.1 hn
+      exact OKw_sName _)]
+    rw [ih (fid + 1) (r.2.1.foldl idStep ids) ⟨e, he⟩ (fun x hx => hl x (by simp [hx]))]
+    rfl
+
+/-! sequence lines -/
+
+theorem intToS_nonneg (a : Int) (h : 0 ≤ a) : intToS a = natToStr a.toNat := by
+  cases a with
+  | ofNat n => rfl
+  | negSucc n => exact absurd h (by simp)
+
+def varStr (v : Int × Nat) : Str := intToS v.1 ++ [':'] ++ natToStr v.2
+
+def seqTok (p : List (Int × Nat) × Nat) : List Str := sName p.2 :: "->".toList :: p.1.map varStr
+
+theorem natToStr_not_mem (c : Char) (hc : c.isDigit = false) (n : Nat) : c ∉ natToStr n := by
+  intro hm
+  have := natToStr_isDigit n c hm
+  rw [hc] at this
+  exact Bool.noConfusion this
+
+theorem OKw_varStr (v : Int × Nat) (h : 0 ≤ v.1) : OKw (varStr v) := by
+  unfold varStr
+  rw [intToS_nonneg _ h, List.append_assoc]
+  apply OKw_append_left _ _ (OKw_natToStr _)
+  intro c hc
+  simp only [List.singleton_append, List.mem_cons] at hc
+  rcases hc with rfl | hc
+  · decide
+  · exact natToStr_noSpace _ c hc
+
+theorem varDec_varStr (v : Int × Nat) (h : 0 ≤ v.1) : varDec (varStr v) = some v := by
+  unfold varStr varDec
+  rw [intToS_nonneg _ h, List.append_assoc, List.singleton_append,
+    splitOnChar_one _ _ _ (natToStr_not_mem _ (by decide) _) (natToStr_not_mem _ (by decide) _)]
+  simp only [strToNat_natToStr]
+  obtain ⟨a, b⟩ := v
+  simp only at h ⊢
+  rw [Int.toNat_of_nonneg h]
+
+theorem filterMap_varDec (ld : List (Int × Nat)) (h : ∀ v ∈ ld, 0 ≤ v.1) :
+    (ld.map varStr).filterMap varDec = ld := by
+  induction ld with
+  | nil => rfl
+  | cons v r ih =>
+    rw [List.map_cons, List.filterMap_cons, varDec_varStr v (h v (by simp)), ih (fun x hx => h x (by simp [hx]))]
+
+theorem seqLine_toks (p : List (Int × Nat) × Nat) (h : ∀ v ∈ p.1, 0 ≤ v.1) :
+    splitWs (seqLine p) = seqTok p := by
+  have e : (fun (x : Int × Nat) => match x with | (a, b) => intToS a ++ [':'] ++ natToStr b) = varStr := by
+    funext ⟨a, b⟩; rfl
+  unfold seqLine seqTok
+  rw [e]
+  simp only [List.append_assoc]
+  rw [splitWs_sp, ← List.append_assoc, ← sName, splitWs_word_sp_r _ _ (OKw_sName _),
+    splitWs_word_sp_r _ _ (by unfold OKw; decide), splitWs_unwords]
+  · rfl
+  · intro s hs
+    obtain ⟨v, hv, rfl⟩ := List.mem_map.1 hs
+    exact OKw_varStr v (h v hv)
+
+/-! decoder on tokens -/
+
+theorem natToStr_ne (s : Str) (h : ∃ c ∈ s, c.isDigit = false) (n : Nat) : natToStr n ≠ s := by
+  obtain ⟨c, hc, hd⟩ := h
+  intro e
+  exact natToStr_not_mem c hd n (e ▸ hc)
+
+theorem ruleDec_none (a b : Str) (rest : List Str) (hb : b ≠ ":".toList) : ruleDec (a :: b :: rest) = none := by
+  have hb' : ¬ b = [':'] := hb
+  rcases rest with _ | ⟨c, _ | ⟨d, e⟩⟩ <;> simp [ruleDec, hb']
+
+theorem filterMap_ruleDec_ruleToks (k : Nat) (r : Rule) (names : List Str) (hf : r.1 ≠ []) :
+    (ruleToks k r names).filterMap ruleDec = [(fnName k, r.1)] := by
+  obtain ⟨f, lin, c⟩ := r
+  cases f with
+  | nil => exact absurd rfl hf
+  | cons a rest =>
+    simp only [ruleToks, List.head?_cons, Option.getD_some, List.drop_succ_cons, List.drop_zero]
+    rw [List.filterMap_cons, List.filterMap_cons, List.filterMap_cons]
+    rw [ruleDec_none (fnName k) "=".toList names (by decide),
+      ruleDec_none (fnName k) (natToStr c) [] (natToStr_ne _ ⟨':', by decide, by decide⟩ c)]
+    simp [ruleDec]
+
+theorem ruleDec_seqTok (p : List (Int × Nat) × Nat) : ruleDec (seqTok p) = none :=
+  ruleDec_none _ _ _ (by decide)
+
+theorem seqDec_none (a b : Str) (rest : List Str) (hb : b ≠ "->".toList) : seqDec (a :: b :: rest) = none := by
+  have hb' : ¬ b = ['-', '>'] := hb
+  simp [seqDec, hb']
+
+theorem filterMap_seqDec_ruleToks (k : Nat) (r : Rule) (names : List Str) :
+    (ruleToks k r names).filterMap seqDec = [] := by
+  simp only [ruleToks]
+  rw [List.filterMap_cons, List.filterMap_cons, List.filterMap_cons]
+  rw [seqDec_none _ _ _ (by decide), seqDec_none _ _ _ (by decide),
+    seqDec_none _ _ _ (natToStr_ne _ ⟨'-', by decide, by decide⟩ _)]
+  rfl
+
+theorem seqDec_seqTok (p : List (Int × Nat) × Nat) (h : ∀ v ∈ p.1, 0 ≤ v.1) :
+    seqDec (seqTok p) = some (sName p.2, p.1) := by
+  simp [seqDec, seqTok, filterMap_varDec p.1 h]
+
+theorem filterMap_flatMap_eq_map {α β γ : Type} (l : List α) (g : α → List β) (f : β → Option γ) (w : α → γ)
+    (h : ∀ a ∈ l, (g a).filterMap f = [w a]) : (l.flatMap g).filterMap f = l.map w := by
+  induction l with
+  | nil => rfl
+  | cons a r ih =>
+    rw [List.flatMap_cons, List.filterMap_append, h a (by simp), ih (fun x hx => h x (by simp [hx]))]
+    rfl
+
+theorem filterMap_flatMap_eq_nil {α β γ : Type} (l : List α) (g : α → List β) (f : β → Option γ)
+    (h : ∀ a ∈ l, (g a).filterMap f = []) : (l.flatMap g).filterMap f = [] := by
+  induction l with
+  | nil => rfl
+  | cons a r ih =>
+    rw [List.flatMap_cons, List.filterMap_append, h a (by simp), ih (fun x hx => h x (by simp [hx]))]
+    rfl
+
+theorem filterMap_map_eq_map {α β γ : Type} (l : List α) (g : α → β) (f : β → Option γ) (w : α → γ)
+    (h : ∀ a ∈ l, f (g a) = some (w a)) : (l.map g).filterMap f = l.map w := by
+  induction l with
+  | nil => rfl
+  | cons a r ih =>
+    rw [List.map_cons, List.filterMap_cons, h a (by simp), ih (fun x hx => h x (by simp [hx]))]
+    rfl
+
+theorem filterMap_map_eq_nil {α β γ : Type} (l : List α) (g : α → β) (f : β → Option γ)
+    (h : ∀ a ∈ l, f (g a) = none) : (l.map g).filterMap f = [] := by
+  induction l with
+  | nil => rfl
+  | cons a r ih =>
+    rw [List.map_cons, List.filterMap_cons, h a (by simp), ih (fun x hx => h x (by simp [hx]))]
+
+/-- all tokens of a written file -/
+def allToks (F : SeqIds) (rs : List Rule) : List (List Str) := toksF F 1 rs ++ F.map seqTok
+
+theorem rules_allToks (F : SeqIds) (rs : List Rule) (hl : ∀ r ∈ rs, r.1 ≠ []) :
+    (allToks F rs).filterMap ruleDec = (rs.zipIdx 1).map fun x => (fnName x.2, x.1.1) := by
+  unfold allToks toksF
+  rw [List.filterMap_append, filterMap_map_eq_nil _ _ _ (fun p _ => ruleDec_seqTok p), List.append_nil]
+  apply filterMap_flatMap_eq_map
+  intro x hx
+  exact filterMap_ruleDec_ruleToks x.2 x.1 _ (hl x.1 (List.mem_zipIdx hx |>.2.2 ▸ List.getElem_mem _))
+
+theorem seqs_allToks (F : SeqIds) (rs : List Rule) (h : ∀ p ∈ F, ∀ v ∈ p.1, 0 ≤ v.1) :
+    (allToks F rs).filterMap seqDec = F.map fun p => (sName p.2, p.1) := by
+  unfold allToks toksF
+  rw [List.filterMap_append, filterMap_flatMap_eq_nil _ _ _ (fun x _ => filterMap_seqDec_ruleToks _ _ _),
+    List.nil_append]
+  exact filterMap_map_eq_map _ _ _ _ (fun p hp => seqDec_seqTok p (h p hp))
+
+theorem findSome?_eq_of_forall {α β : Type} (f : α → Option β) (l : List α) (v : β)
+    (h1 : ∀ t ∈ l, f t = none ∨ f t = some v) (h2 : ∃ t ∈ l, f t = some v) : l.findSome? f = some v := by
+  induction l with
+  | nil => obtain ⟨t, ht, _⟩ := h2; simp at ht
+  | cons a r ih =>
+    rw [List.findSome?_cons]
+    rcases h1 a (by simp) with h | h
+    · rw [h]
+      apply ih (fun t ht => h1 t (by simp [ht]))
+      obtain ⟨t, ht, hv⟩ := h2
+      simp only [List.mem_cons] at ht
+      rcases ht with rfl | ht
+      · rw [h] at hv; cases hv
+      · exact ⟨t, ht, hv⟩
+    · rw [h]
+
+theorem find?_eq_of_forall {α : Type} (p : α → Bool) (l : List α) (y : α)
+    (h1 : ∀ x ∈ l, p x = true → x = y) (h2 : y ∈ l) (h3 : p y = true) : l.find? p = some y := by
+  induction l with
+  | nil => simp at h2
+  | cons a r ih =>
+    rw [List.find?_cons]
+    cases hp : p a with
+    | true => rw [h1 a (by simp) hp]
+    | false =>
+      simp only
+      apply ih (fun x hx => h1 x (by simp [hx]))
+      simp only [List.mem_cons] at h2
+      rcases h2 with rfl | h2
+      · rw [h3] at hp; exact Bool.noConfusion hp
+      · exact h2
+
+theorem fnName_inj {j k : Nat} (h : fnName j = fnName k) : j = k :=
+  natToStr_inj (List.append_cancel_left h)
+
+theorem sName_inj {j k : Nat} (h : sName j = sName k) : j = k :=
+  natToStr_inj (List.append_cancel_left h)
+
+theorem zipIdx_unique {α : Type} (l : List α) (s k : Nat) (a b : α) (ha : (a, k) ∈ l.zipIdx s) (hb : (b, k) ∈ l.zipIdx s) :
+    a = b := by
+  rw [List.mem_zipIdx_iff_le_and_getElem?_sub] at ha hb
+  have := ha.2.symm.trans hb.2
+  exact Option.some.inj this
+
+theorem mem_toksF (F : SeqIds) (fid : Nat) (rs : List Rule) (t : List Str) (h : t ∈ toksF F fid rs) :
+    ∃ x ∈ rs.zipIdx fid,
+      t = fnName x.2 :: ":".toList :: (x.1.1.head?.getD []) :: "<-".toList :: x.1.1.drop 1 ∨
+      t = fnName x.2 :: "=".toList :: x.1.2.1.map (nameIn F) ∨
+      t = [fnName x.2, natToStr x.1.2.2] := by
+  unfold toksF at h
+  obtain ⟨x, hx, ht⟩ := List.mem_flatMap.1 h
+  refine ⟨x, hx, ?_⟩
+  simpa [ruleToks] using ht
+
+theorem linDec_none (n a b : Str) (rest : List Str) (hb : b ≠ "=".toList) : linDec n (a :: b :: rest) = none := by
+  have hb' : ¬ b = ['='] := hb
+  simp [linDec, hb']
+
+theorem linIds_allToks (F : SeqIds) (rs : List Rule) (r : Rule) (k : Nat) (hx : (r, k) ∈ rs.zipIdx 1) :
+    (allToks F rs).findSome? (linDec (fnName k)) = some (r.2.1.map (nameIn F)) := by
+  apply findSome?_eq_of_forall
+  · intro t ht
+    unfold allToks at ht
+    rcases List.mem_append.1 ht with ht | ht
+    · obtain ⟨x, hx', h | h | h⟩ := mem_toksF F 1 rs t ht
+      · left; rw [h]; exact linDec_none _ _ _ _ (by decide)
+      · by_cases hk : fnName x.2 = fnName k
+        · right
+          have : x.1 = r := zipIdx_unique rs 1 k _ _ (by rw [← fnName_inj hk]; exact hx') hx
+          rw [h, ← this]
+          simp [linDec, hk]
+        · left; rw [h]; simp [linDec, hk]
+      · left; rw [h]; exact linDec_none _ _ _ _ (natToStr_ne _ ⟨'=', by decide, by decide⟩ _)
+    · obtain ⟨p, _, rfl⟩ := List.mem_map.1 ht
+      left; exact linDec_none _ _ _ _ (by decide)
+  · refine ⟨fnName k :: "=".toList :: r.2.1.map (nameIn F), ?_, by simp [linDec]⟩
+    unfold allToks toksF
+    apply List.mem_append_left
+    exact List.mem_flatMap.2 ⟨(r, k), hx, by simp [ruleToks]⟩
+
+theorem count_allToks (F : SeqIds) (rs : List Rule) (r : Rule) (k : Nat) (hx : (r, k) ∈ rs.zipIdx 1) :
+    (allToks F rs).findSome? (cntDec (fnName k)) = some r.2.2 := by
+  apply findSome?_eq_of_forall
+  · intro t ht
+    unfold allToks at ht
+    rcases List.mem_append.1 ht with ht | ht
+    · obtain ⟨x, hx', h | h | h⟩ := mem_toksF F 1 rs t ht
+      · left; rw [h]; simp [cntDec]
+      · left; rw [h]
+        rcases x.1.2.1.map (nameIn F) with _ | ⟨a, b⟩
+        · have : strToNat? ['='] = none := by decide
+          simp [cntDec, this]
+        · simp [cntDec]
+      · by_cases hk : fnName x.2 = fnName k
+        · right
+          have : x.1 = r := zipIdx_unique rs 1 k _ _ (by rw [← fnName_inj hk]; exact hx') hx
+          rw [h, ← this]
+          simp [cntDec, hk, strToNat_natToStr]
+        · left; rw [h]; simp [cntDec, hk]
+    · obtain ⟨p, _, rfl⟩ := List.mem_map.1 ht
+      left
+      unfold seqTok
+      rcases p.1.map varStr with _ | ⟨a, b⟩
+      · have : strToNat? ['-', '>'] = none := by decide
+        simp [cntDec, this]
+      · simp [cntDec]
+  · refine ⟨[fnName k, natToStr r.2.2], ?_, by simp [cntDec, strToNat_natToStr]⟩
+    unfold allToks toksF
+    apply List.mem_append_left
+    exact List.mem_flatMap.2 ⟨(r, k), hx, by simp [ruleToks]⟩
+
+theorem snd_inj_of_nodup {α β : Type} (l : List (α × β)) (h : (l.map (·.2)).Nodup) (p q : α × β)
+    (hp : p ∈ l) (hq : q ∈ l) (e : p.2 = q.2) : p = q := by
+  induction l with
+  | nil => simp at hp
+  | cons a r ih =>
+    simp only [List.map_cons, List.nodup_cons] at h
+    simp only [List.mem_cons] at hp hq
+    rcases hp with rfl | hp <;> rcases hq with rfl | hq
+    · rfl
+    · exact absurd (e ▸ List.mem_map_of_mem hq) h.1
+    · exact absurd (e ▸ List.mem_map_of_mem hp) h.1
+    · exact ih h.2 hp hq
+
+theorem lin_decode (F : SeqIds) (lin : Lin) (hnd : (F.map (·.2)).Nodup)
+    (hs : ∀ ld ∈ lin, (AList.get? ld F).isSome) :
+    (lin.map (nameIn F)).mapM (fun i => ((F.map fun p => (sName p.2, p.1)).find? (·.1 == i)).map (·.2)) = some lin := by
+  have := mapM_option_map lin (nameIn F)
+    (fun i => ((F.map fun p => (sName p.2, p.1)).find? (·.1 == i)).map (·.2)) id ?_
+  · simpa using this
+  · intro ld hld
+    obtain ⟨i, hi⟩ := Option.isSome_iff_exists.1 (hs ld hld)
+    have hmem := get?_some_mem ld i F hi
+    have hname : nameIn F ld = sName i := by simp [nameIn, hi]
+    rw [hname, find?_eq_of_forall _ _ (sName i, ld)]
+    · rfl
+    · intro x hx hpx
+      obtain ⟨p, hp, rfl⟩ := List.mem_map.1 hx
+      have : sName p.2 = sName i := by simpa using hpx
+      have := snd_inj_of_nodup F hnd p (ld, i) hp hmem (sName_inj this)
+      rw [this]
+    · exact List.mem_map.2 ⟨(ld, i), hmem, rfl⟩
+    · simp
+
+theorem decToks_allToks (F : SeqIds) (rs : List Rule) (hl : ∀ r ∈ rs, r.1 ≠ [])
+    (hnd : (F.map (·.2)).Nodup) (hs : ∀ r ∈ rs, ∀ ld ∈ r.2.1, (AList.get? ld F).isSome)
+    (hpos : ∀ p ∈ F, ∀ v ∈ p.1, 0 ≤ v.1) :
+    decToks (allToks F rs) = some rs := by
+  unfold decToks
+  rw [rules_allToks F rs hl, seqs_allToks F rs hpos]
+  have := mapM_option_map (rs.zipIdx 1) (fun x => (fnName x.2, x.1.1))
+    (fun (x : Str × List Str) => match x with
+      | (name, func) => do
+        let linIds ← (allToks F rs).findSome? (linDec name)
+        let lin ← linIds.mapM fun i => ((F.map fun p => (sName p.2, p.1)).find? (·.1 == i)).map (·.2)
+        let count ← (allToks F rs).findSome? (cntDec name)
+        pure (func, lin, count)) (fun x => x.1) ?_
+  · rw [List.zipIdx_map_fst] at this
+    exact this
+  · rintro ⟨r, k⟩ hx
+    have hr : r ∈ rs := List.mem_zipIdx hx |>.2.2 ▸ List.getElem_mem _
+    simp only [linIds_allToks F rs r k hx, count_allToks F rs r k hx, lin_decode F r.2.1 hnd (hs r hr),
+      Option.bind_eq_bind, Option.bind_some]
+    rfl
+
+theorem nodup_of_WN (F : SeqIds) (h : WN F) : (F.map (·.2)).Nodup := by
+  unfold WN at h
+  rw [h]
+  exact List.nodup_range'
+
+theorem writePmcfg_lines (g : Grammar) (lex : Lexicon) :
+    (writePmcfg false g lex).1 = linesOf 1 [] g.rules ++ (idsOf [] g.rules).map seqLine := by
+  rw [writePmcfg_false, foldl_pmStep]
+  rfl
+
+theorem idsOf_nonneg (g : Grammar)
+    (hpos : ∀ r ∈ g.rules, ∀ ld ∈ r.2.1, ∀ v ∈ ld, 0 ≤ v.1) :
+    ∀ p ∈ idsOf [] g.rules, ∀ v ∈ p.1, 0 ≤ v.1 := by
+  intro p hp
+  obtain ⟨e, he, hk⟩ := idsOf_ext g.rules []
+  rw [he, List.nil_append] at hp
+  obtain ⟨r, hr, hm⟩ := hk p hp
+  exact hpos r hr p.1 hm
+
+theorem writePmcfg_toks (g : Grammar) (lex : Lexicon)
+    (hl : ∀ r ∈ g.rules, r.1 ≠ [] ∧ ∀ s ∈ r.1, OKw s)
+    (hF : ∀ p ∈ idsOf [] g.rules, ∀ v ∈ p.1, 0 ≤ v.1) :
+    (writePmcfg false g lex).1.map splitWs = allToks (idsOf [] g.rules) g.rules := by
+  rw [writePmcfg_lines g lex, List.map_append, List.map_map]
+  rw [linesOf_toks g.rules 1 [] (idsOf [] g.rules) ⟨[], (List.append_nil _).symm⟩ hl]
+  have h1 : ∀ p ∈ idsOf [] g.rules, (splitWs ∘ seqLine) p = seqTok p := by
+    intro p hp
+    rw [Function.comp_apply]
+    exact seqLine_toks p (hF p hp)
+  have : List.map (splitWs ∘ seqLine) (idsOf [] g.rules) = (idsOf [] g.rules).map seqTok :=
+    List.map_congr_left h1
+  rw [this, allToks]
+
+/-- PMCFG round trip, hypotheses on the rule list -/
+theorem decPmcfg_writePmcfg (g : Grammar) (lex : Lexicon)
+    (hl : ∀ r ∈ g.rules, r.1 ≠ [] ∧ ∀ s ∈ r.1, OKw s)
+    (hpos : ∀ r ∈ g.rules, ∀ ld ∈ r.2.1, ∀ v ∈ ld, 0 ≤ v.1) :
+    decPmcfg (writePmcfg false g lex).1 = some g.rules := by
+  have h2 := idsOf_nonneg g hpos
+  rw [decPmcfg_eq, writePmcfg_toks g lex hl h2]
+  exact decToks_allToks _ _ (fun r hr => (hl r hr).1) (nodup_of_WN _ (WN_idsOf _ _ rfl))
+    (idsOf_isSome g.rules []) h2
+
+theorem mem_rules (g : Grammar) (r : Func × Lin × Nat) (h : r ∈ g.rules) :
+    ∃ e ∈ g, ∃ le ∈ e.2, r.1 = e.1 ∧ r.2.1 = le.1 := by
+  simp only [Grammar.rules, List.mem_flatMap, List.mem_map] at h
+  obtain ⟨e, he, x, hx, rfl⟩ := h
+  exact ⟨e, he, x, hx, rfl, rfl⟩
+
 end TT.Lemmas.GramOut
